@@ -42,11 +42,15 @@ Definition f_same (a b : float) : bool :=
   | _, _ => false
   end.
 
-(* a % b on integral operands (both Lua 5.1's a - floor(a/b)*b and fmod-with-sign-fix agree) *)
+(* a % b on integral operands where Lua 5.1's a - floor(a/b)*b, computed in doubles, is the exact
+   floored remainder: with |a| < 2^53 the rounded quotient has the floor of the true one (the error
+   is below 1/|b|, the least distance of a non-integral a/b from an integer), and with
+   |a| + |b| <= 2^53 the product floor(a/b)*b (an integer of magnitude below |a| + |b|) and the
+   subtraction are exact. Beyond that the formula rounds: (-(2^53-1)) % 7 is 5 in Lua 5.1, not 4. *)
 Definition f_mod_int (a b : float) : option float :=
   match f_to_Z a, f_to_Z b with
   | Some x, Some y => if y =? 0 then None else
-      if (Z.abs x <? 2 ^ 53) && (Z.abs y <? 2 ^ 53) then Some (f_of_Z (x mod y)) else None
+      if (Z.abs x <? 2 ^ 53) && (Z.abs y <? 2 ^ 53) && (Z.abs x + Z.abs y <=? 2 ^ 53) then Some (f_of_Z (x mod y)) else None
   | _, _ => None
   end.
 
